@@ -41,6 +41,7 @@ GEN = {
     "errors": ("Gen_Semantics_errors.cfg", 2),
     "syn": ("Gen_Semantics_syn.cfg", 2),
     "errors5": ("Gen_Semantics_errors5.cfg", 2),
+    "errfn": ("Gen_Semantics_errfn.cfg", 2),
     # TLC simulation mode (random walks of the grow phase) for sizes beyond the exhaustive bound
     "sim12": ("Gen_Semantics_sim12.cfg", 2),
     "simerr": ("Gen_Semantics_simerr.cfg", 2),
@@ -50,19 +51,21 @@ SIMULATE = {"sim12": 3000, "simerr": 3000}
 # tier -> list of (name, K)
 PLAN = {
     "C02": {
-        "quick": {"laws": [("MC_Semantics_cov.cfg", None), ("MC_Semantics_laws_all.cfg", None)],
-                  "gen": [("andor", 5), ("flow", 4), ("loops", 5), ("loops2", 7), ("funcs", 4), ("case", 4)],
-                  "variants": 2, "random": (800, 40, "c02"), "real": ("flow", 4, 60)},
-        "thorough": {"laws": [("MC_Semantics_cov.cfg", None), ("MC_Semantics_laws_all.cfg", None), ("MC_Semantics_laws_flow5.cfg", None)],
-                     "gen": [("andor", 7), ("flow", 5), ("loops", 6), ("loops2", 7), ("funcs", 5), ("case", 5), ("sim12", 12)],
+        "quick": {"laws": ["MC_Semantics_cov.cfg", "MC_Semantics_laws_all.cfg", "MC_Semantics_laws_flow.cfg"],
+                  "gen": [("andor", 6), ("flow", 4), ("loops", 5), ("loops2", 7), ("funcs", 4), ("case", 4)],
+                  "variants": 2, "random": (1500, 40, "c02"), "real": ("flow", 4, 30)},
+        "thorough": {"laws": ["MC_Semantics_cov.cfg", "MC_Semantics_laws_all.cfg", "MC_Semantics_laws_flow5.cfg"],
+                     "gen": [("andor", 7), ("flow", 5), ("loops", 6), ("loops2", 7), ("funcs", 5), ("case", 5),
+                             ("sim12", 12)],
                      "variants": 3, "random": (20000, 40, "c02"), "real": ("flow", 4, 6)},
     },
     "C10": {
-        "quick": {"laws": [("MC_Semantics_cov.cfg", None), ("MC_Semantics_laws_errors.cfg", None)],
-                  "gen": [("errexit", 4), ("errors", 4), ("syn", 4)],
-                  "variants": 2, "random": (600, 40, "c10"), "real": ("errors", 3, 8)},
-        "thorough": {"laws": [("MC_Semantics_cov.cfg", None), ("MC_Semantics_laws_all.cfg", None), ("MC_Semantics_laws_errors.cfg", None), ("MC_Semantics_laws_errexit.cfg", None)],
-                     "gen": [("errexit", 5), ("errors", 4), ("errors5", 5), ("syn", 6), ("simerr", 10)],
+        "quick": {"laws": ["MC_Semantics_cov.cfg", "MC_Semantics_laws_all.cfg", "MC_Semantics_laws_errors.cfg"],
+                  "gen": [("errexit", 4), ("errors", 4), ("errfn", 6), ("syn", 5)],
+                  "variants": 2, "random": (1000, 40, "c10"), "real": ("errors", 3, 4)},
+        "thorough": {"laws": ["MC_Semantics_cov.cfg", "MC_Semantics_laws_all.cfg", "MC_Semantics_laws_errors.cfg",
+                              "MC_Semantics_laws_errexit.cfg"],
+                     "gen": [("errexit", 5), ("errors", 4), ("errors5", 5), ("errfn", 7), ("syn", 6), ("simerr", 10)],
                      "variants": 2, "random": (20000, 40, "c10"), "real": ("errors", 4, 40)},
     },
 }
@@ -361,7 +364,7 @@ def run_property(pid, tier):
     real_name, real_k, real_every = plan["real"]
     res = {}
     tasks = []
-    for i, (cfg, _) in enumerate(plan["laws"]):
+    for i, cfg in enumerate(plan["laws"]):
         tasks.append(lambda cfg=cfg, i=i: laws(cfg, st, workers=4, coverage=(i == 0)))
     tasks.append(lambda: res.update(p3=random_and_validate(rep, pid, wd, n, size, profile, st, jobs=4, shards=6)))
     gens = list(plan["gen"])
